@@ -161,6 +161,9 @@ func (w *world) genRows(c *simChan, st *mstate, n int, mode AppendMode, compat b
 				wZero = 1
 			}
 		}
+		if w.bulk {
+			wDupLive, wDupBatch, wGrave, wZero = 0, 0, 0, 0
+		}
 		switch tp.Weighted([]int{10, wDupLive, wDupBatch, wGrave, wZero}) {
 		case 0:
 			w.nextID++
@@ -180,7 +183,11 @@ func (w *world) genRows(c *simChan, st *mstate, n int, mode AppendMode, compat b
 			row.ID = 0
 		}
 		// idempotency key
-		switch tp.Weighted([]int{3 + 2*w.c.Collide, 4, boolInt(len(c.graveKeys) > 0)}) {
+		keyW := []int{3 + 2*w.c.Collide, 4, boolInt(len(c.graveKeys) > 0)}
+		if w.bulk {
+			keyW = []int{0, 1, 0} // filter saturation needs many distinct stored keys
+		}
+		switch tp.Weighted(keyW) {
 		case 0:
 			row.From, row.CMN = w.alpha(fromAlphabet), w.alpha(cmnAlphabet)
 		case 1:
